@@ -900,6 +900,13 @@ where
                 if count > MAX_ARRAY_COUNT || count > len {
                     return Err(Error::InvalidValue);
                 }
+                // Neither the size nor the count field is trusted beyond the octets that are
+                // really there: the announced body (everything after the count) must be present
+                // before anything iterates over `count` elements that may be zero octets wide
+                let body = len.checked_sub(1).ok_or(Error::InvalidLength)?;
+                if self.reader.peek_bytes(body)?.is_none() {
+                    return Err(Error::unexpected_eof("Expecting array body"));
+                }
 
                 // If count is zero, jump to visitor
                 match count {
@@ -938,6 +945,13 @@ where
                 // frame cannot trick the visitor into iterating 2^31 times.
                 if count > MAX_ARRAY_COUNT || count > len {
                     return Err(Error::InvalidValue);
+                }
+                // Neither the size nor the count field is trusted beyond the octets that are
+                // really there: the announced body (everything after the count) must be present
+                // before anything iterates over `count` elements that may be zero octets wide
+                let body = len.checked_sub(4).ok_or(Error::InvalidLength)?;
+                if self.reader.peek_bytes(body)?.is_none() {
+                    return Err(Error::unexpected_eof("Expecting array body"));
                 }
 
                 // If count is zero, jump to visitor
